@@ -144,6 +144,46 @@ def cases(draw, two_writes=False):
     return spec
 
 
+@st.composite
+def multi_cases(draw):
+    """2-3 frames, each with its own index channel, in one or two logical files: every frame is judged on its own."""
+    nfr = draw(st.integers(2, 3))
+    nlf = draw(st.sampled_from([1, 1, 2]))
+    lfs = [{'hdr': {'id': f'LF{i}'}, 'ops': [
+        {'t': 'origin', 'name': f'O{i}', 'attrs': {'file_set_number': {'v': 1, 'r': 'kw'},
+                                                  'creation_time': {'v': {'$dt': '2001-02-03T04:05:06', 'tz': 0},
+                                                                    'r': 'kw'}}}]} for i in range(nlf)]
+    frames = []
+    for k in range(nfr):
+        i = k % nlf
+        ops = lfs[i]['ops']
+        rows = draw(st.sampled_from([1, 2, 3, 5, 8, 12]))
+        code = draw(st.sampled_from(DTYPES))
+        bo = '|' if code.endswith('1') else draw(st.sampled_from(['<', '>']))
+        vals, pattern = draw(index_values(code, rows))
+        with np.errstate(all='ignore'):
+            arr = np.array(vals, dtype=np.float64 if code[0] == 'f' else object).astype(bo + code)
+        aj = model.array_spec_from(arr)
+        aj['dt'] = bo + code
+        units = draw(st.sampled_from([None, 'm', 's']))
+        ops.append({'t': 'channel', 'name': f'INDEX{k}', 'data': aj,
+                    'attrs': ({'units': {'v': units, 'r': 'kw'}} if units else {})})
+        ops.append({'t': 'channel', 'name': f'PAYLOAD{k}', 'data': {'dt': '<f4', 'shape': [rows], 'pat': [5, k]}, 'attrs': {}})
+        fattrs = {'channels': {'v': [{'$ref': len(ops) - 2}, {'$ref': len(ops) - 1}], 'r': 'kw'}}
+        indexed = draw(st.integers(0, 4)) != 0
+        if indexed:
+            fattrs['index_type'] = {'v': draw(st.sampled_from(['BOREHOLE-DEPTH', 'TIME', 'NON-STANDARD'])), 'r': 'kw'}
+        user = {}
+        if draw(st.integers(0, 4)) == 0:
+            kk = draw(st.sampled_from(['index_min', 'index_max', 'spacing']))
+            user[kk] = {'v': draw(st.sampled_from([0.0, 0, -5.5, 1000.0])), 'u': None,
+                        'r': draw(st.sampled_from(['kw', 'dict', 'setup', 'later']))}
+        fattrs.update(user)
+        ops.append({'t': 'frame', 'name': f'FRAME{k}', 'attrs': fattrs})
+        frames.append({'lf': i, 'name': f'FRAME{k}', 'indexed': indexed, 'user': user, 'pattern': pattern, 'dtype': code})
+    return {'kind': 'spec', 'sul': {'vrl': 8192}, 'lfs': lfs, 'write': {'source': 'inline'}, 'multi': frames}
+
+
 def judge_frame(dlf, fo, user, indexed):
     """Validity predicate on one decoded FRAME object vs. the rows decoded from the same file."""
     out = []
@@ -257,7 +297,8 @@ class C13(Property):
             "tolerance, monotone, constant, random, with NaN; integer values placed so that differences may exceed the "
             "dtype's range), 1-20 rows, optional window, optional user-supplied INDEX-MIN/MAX/SPACING/DIRECTION, with or "
             "without index type; second family: write(window1) then write(window2[, other data]) on one DLISFile, second "
-            "file judged; non-trivial = indexed frame with >= 3 rows whose dtype is integer or whose spacing is "
+            "file judged; third family: 2-3 frames in 1-2 logical files, each with its own index channel and judged "
+            "on its own; non-trivial = indexed frame with >= 3 rows whose dtype is integer or whose spacing is "
             "non-uniform, or a second write")
     assumptions = ("documented tolerance: squared relative deviation from the median < 0.001, with a 0.1 % don't-care "
                    "band around the threshold", "differences involving NaN are not judged")
@@ -265,10 +306,38 @@ class C13(Property):
     def searches(self, ctx):
         n = 6400 if ctx.tier == 'quick' else 80000
         m = 480 if ctx.tier == 'quick' else 6400
-        return [('index-arrays', cases(False), n // ctx.nshards), ('two-writes', cases(True), m // ctx.nshards)]
+        return [('index-arrays', cases(False), n // ctx.nshards), ('two-writes', cases(True), m // ctx.nshards),
+                ('several-frames', multi_cases(), m // ctx.nshards)]
+
+    def run_multi(self, spec, ctx):
+        spec = dict(spec)
+        frames = spec.pop('multi')
+        labels = ['several-frames', f"lfs:{len(spec['lfs'])}"] + ['pattern:' + f['pattern'] for f in frames]
+        r = B.build_and_write(spec, ctx.path(), ctx.scratch)
+        if r['outcome'] != 'written':
+            tn, site = dw.exc_site(r['exc'])
+            return Result([], labels, False, f"raised:{tn}@{site}")
+        try:
+            dec = read_file(r['buf'])
+        except FormatError as exc:
+            return Result([Violation(f"undecodable/{exc.kind}", str(exc))], labels, False, 'written')
+        viol = []
+        for pos, f in enumerate(frames):
+            dlf = dec.logical_files[f['lf']]
+            fos = [o for o, s_, ri in dlf.objects_of_type('FRAME') if o.name[2] == f['name']]
+            if len(fos) != 1:
+                viol.append(Violation('several-frames/frame-missing', f"{f['name']} found {len(fos)} times"))
+                continue
+            which = 'last-frame' if pos == len(frames) - 1 else 'earlier-frame'
+            for k, wh, d in judge_frame(dlf, fos[0], f['user'], f['indexed']):
+                viol.append(Violation(f"several-frames/{k}/{which}", f"{f['name']}: {d}"))
+        return Result(viol, labels, True, 'written', sample={'frames': [(f['name'], f['dtype'], f['pattern'], f['indexed'])
+                                                                        for f in frames]})
 
     def run(self, spec, ctx):
         dw.check_import_location()
+        if 'multi' in spec:
+            return self.run_multi(spec, ctx)
         spec = dict(spec)
         pattern = spec.pop('pattern', '?')
         second = spec.pop('second', None)
